@@ -292,6 +292,8 @@ def _relevant(obligation, kind, names):
         return kind == "absent" and m is not None and m.group(1) in names
     if "present[" in obligation:
         return kind == "present" and m is not None and m.group(1) in names
+    if "ensures.sync_type" in obligation:
+        return kind == "present" and any("sync" in n or "Sync" in n for n in names)
     if "bad_file" in obligation or "requires.is_dict" in obligation or "no_raise" in obligation or "generation" in obligation:
         return kind == "bad"
     return False
@@ -309,6 +311,20 @@ def search(func, tier, seed, obligation=""):
     trials.append(([], '"text"', "bad"))
     trials.append(([], '{"nthreads": ', "bad"))
     trials.append((["--nthreads", "2"], '{"nthreads": 3, "hover_language": "f03", "excl_paths": ["a"], "pp_defs": {"X": 1}}', "present"))
+    # every option given on both channels with different values: the file must win, derived settings included
+    from fortls.interface import cli as _cli
+    import json as _json
+    for act in _cli("fortls")._actions:
+        o = act.dest
+        if o not in OPTIONS or o in ("debug_log",) or not act.option_strings:
+            continue
+        flag = act.option_strings[-1]
+        if type(act).__name__ == "_StoreTrueAction":
+            trials.append(([flag], _json.dumps({o: False}), "present"))
+        elif act.type is int:
+            trials.append(([flag, "7"], _json.dumps({o: 9}), "present"))
+        elif o == "hover_language":
+            trials.append(([flag, "f77"], _json.dumps({o: "f08"}), "present"))
     for argv, cfg, kind in trials:
         ws = Workspace({".fortlsrc": cfg, "a.f90": "program p\nend program p\n"})
         try:
@@ -344,6 +360,11 @@ def search(func, tier, seed, obligation=""):
                         continue
                     if got != v:
                         wrong[k] = (v, got)
+                if srv.sync_type != (2 if srv.incremental_sync else 1):
+                    wrong["sync_type"] = ("2 if incremental_sync else 1", srv.sync_type)
+                caps = init[0]["result"]["capabilities"]
+                if caps.get("textDocumentSync") != (2 if srv.incremental_sync else 1):
+                    wrong["capabilities.textDocumentSync"] = (2 if srv.incremental_sync else 1, caps.get("textDocumentSync"))
                 if wrong and _relevant(obligation, kind, list(wrong)):
                     return {"function": func, "argv": argv, "config": cfg, "problem": "file value not used",
                             "wrong (file, server)": wrong}
